@@ -294,13 +294,13 @@ func LiveMPD(a *asset, mpdName string, cfg *ResponseConfig, drmCfg *drm.DrmConfi
 		}
 	}
 	if len(cfg.TimeSubsStpp) > 0 {
-		err = addTimeSubs(cfg, a, period, cfg.TimeSubsStpp, "stpp")
+		err = addTimeSubs(cfg, a, period, cfg.TimeSubsStpp, "stpp", 100)
 		if err != nil {
 			return nil, fmt.Errorf("addTimeSubs stpp: %w", err)
 		}
 	}
 	if len(cfg.TimeSubsWvtt) > 0 {
-		err = addTimeSubs(cfg, a, period, cfg.TimeSubsWvtt, "wvtt")
+		err = addTimeSubs(cfg, a, period, cfg.TimeSubsWvtt, "wvtt", 200)
 		if err != nil {
 			return nil, fmt.Errorf("addTimeSubs wvtt: %w", err)
 		}
@@ -643,7 +643,8 @@ func adjustAdaptationSetForSegmentNumber(cfg *ResponseConfig, a *asset, as *m.Ad
 	return nil
 }
 
-func addTimeSubs(cfg *ResponseConfig, a *asset, period *m.Period, languages []string, kind string) error {
+// addTimeSubs adds one text AdaptationSet per language; their ids count from firstID (unique within the Period).
+func addTimeSubs(cfg *ResponseConfig, a *asset, period *m.Period, languages []string, kind string, firstID int) error {
 	var vAS *m.AdaptationSetType
 	for _, as := range period.AdaptationSets {
 		if as.ContentType == "video" {
@@ -681,7 +682,7 @@ func addTimeSubs(cfg *ResponseConfig, a *asset, period *m.Period, languages []st
 			st.SegmentTimeline = changeTimelineTimescale(vST.SegmentTimeline, int(*vST.Timescale), SUBS_TIME_TIMESCALE)
 		}
 		as := m.NewAdaptationSet()
-		as.Id = Ptr(uint32(100 + i))
+		as.Id = Ptr(uint32(firstID + i))
 		as.Lang = lang
 		as.ContentType = "text"
 		as.MimeType = "application/mp4"
